@@ -102,7 +102,7 @@ class UnsafeNodeError(ExpressionError):
 # of the wrong type/shape. Evaluators report these as ExpressionError so that callers
 # (which skip rules/views on ExpressionError) never abort on a single bad expression.
 _OPERAND_ERRORS = (TypeError, ValueError, AttributeError, KeyError, IndexError,
-                   StopIteration, ArithmeticError, re.error)
+                   StopIteration, ArithmeticError, RecursionError, re.error)
 
 
 # =============================================================================
@@ -149,6 +149,9 @@ def parse_expression(expr: str) -> ast.Expression:
         return tree
     except SyntaxError as e:
         raise ExpressionError(f"Syntax error: {e.msg} at position {e.offset}")
+    except (RecursionError, MemoryError, ValueError) as e:
+        # Pathologically nested or oversized expressions exhaust the parser/validator
+        raise ExpressionError(f"Expression too complex to parse: {type(e).__name__}: {e}")
     except UnsafeNodeError:
         raise
 
